@@ -2735,10 +2735,37 @@ impl Interpreter {
         func: NativeFn,
         arity: usize,
     ) -> Gc<JsObject> {
+        // Permanent (rooted for the lifetime of the interpreter): for built-ins created at
+        // start-up. Functions created at run time must use `create_native_function_in`.
+        let func_obj = self.root_guard.alloc();
+        self.init_native_function(&func_obj, name, func, arity);
+        func_obj
+    }
+
+    /// Like `create_native_function`, but the function object is allocated through the
+    /// caller's guard, so it is reclaimed once nothing references it any more.
+    pub fn create_native_function_in(
+        &mut self,
+        guard: &Guard<JsObject>,
+        name: &str,
+        func: NativeFn,
+        arity: usize,
+    ) -> Gc<JsObject> {
+        let func_obj = guard.alloc();
+        self.init_native_function(&func_obj, name, func, arity);
+        func_obj
+    }
+
+    fn init_native_function(
+        &mut self,
+        func_obj: &Gc<JsObject>,
+        name: &str,
+        func: NativeFn,
+        arity: usize,
+    ) {
         let name_str = self.intern(name);
         let length_key = PropertyKey::String(self.intern("length"));
         let name_key = PropertyKey::String(self.intern("name"));
-        let func_obj = self.root_guard.alloc();
         {
             let mut f_ref = func_obj.borrow_mut();
             f_ref.prototype = Some(self.function_prototype.clone());
@@ -2753,7 +2780,6 @@ impl Interpreter {
             // Set name property
             f_ref.set_property(name_key, JsValue::String(name_str));
         }
-        func_obj
     }
 
     /// Create a function object from any JsFunction variant.
